@@ -116,13 +116,38 @@ def cqopt(x):
 # ----------------------------------------------------------------------------------------
 
 
+_LAY = {"on": False, "k": 0}   # set per case by execute(): store tensors as non-contiguous views (robustness audit)
+
+
+def relayout(x, k):
+    """the same logical tensor as a view: transposed-contiguous-transposed (2-D), a slice of a larger buffer with a
+    storage offset, or every second cell of a larger buffer.  torch.save keeps the view, torch.load returns it."""
+    k = k % 3
+    if k == 0 and x.ndim == 2:
+        return x.t().contiguous().t()
+    if k == 2 and x.ndim >= 1:
+        big = torch.full([2 * n for n in x.shape], 5, dtype=x.dtype)
+        v = big[tuple(slice(None, None, 2) for _ in x.shape)]
+        v.copy_(x)
+        return v
+    big = torch.full((x.numel() + 6,), 5, dtype=x.dtype)
+    v = big[3:3 + x.numel()].view(x.shape)
+    v.copy_(x)
+    return v
+
+
 def to_torch(t, float_=False):
     dt = torch.float if float_ else torch.long
     if "v" in t:
-        return torch.tensor(t["v"], dtype=dt)
-    if not t["rows"]:
-        return torch.zeros((0, t["w"]), dtype=dt)
-    return torch.tensor(t["rows"], dtype=dt)
+        x = torch.tensor(t["v"], dtype=dt)
+    elif not t["rows"]:
+        x = torch.zeros((0, t["w"]), dtype=dt)
+    else:
+        x = torch.tensor(t["rows"], dtype=dt)
+    if _LAY["on"]:
+        _LAY["k"] += 1
+        x = relayout(x, _LAY["k"])
+    return x
 
 
 def from_torch(x):
@@ -356,6 +381,13 @@ def g_pool(rng, case):
                     sched=rng.randint(0, 10 ** 6))
 
 
+def g_layout(rng, case, p=0.3):
+    """with probability p every tensor of the case is stored as a non-contiguous view (kind rotates per file)"""
+    if rng.random() < p:
+        case["views"] = rng.randint(1, 3)
+    return case
+
+
 def g_ali_vec(rng):
     n = rng.choice([0, 1, 1, 2, 3, 5, 8, 12])
     v, cur = [], rng.randint(0, 3)
@@ -374,7 +406,7 @@ def g_ali(rng):
     case["feat"] = rng.random() < 0.4
     case["dst0"] = rng.random() < 0.2
     g_pool(rng, case)
-    return case
+    return g_layout(rng, case)
 
 
 def ali_feats(case, scale=1):
@@ -480,7 +512,7 @@ def g_ref2ali(rng):
     case = dict(kind="ref2ali", pre=pre, suf=suf, files=files, strays=g_strays(rng, pre, suf),
                 feat=rng.random() < 0.5, Ts=Ts)
     g_pool(rng, case)
-    return case
+    return g_layout(rng, case)
 
 
 def x_ref2ali(chk, sc, case):
@@ -863,6 +895,38 @@ def g_er(rng):
                 batch=rng.choice([None, 1, 1, 2, 3, max(n, 1), n + 1]), batch2=rng.choice([1, 2, 3, 100]),
                 per_utt=rng.random() < 0.35, distances=rng.random() < 0.3, warn=bool(missing) and rng.random() < 0.7,
                 costs=rng.choice(COSTS), layout=rng.choice(["two", "two", "parent"]), strays=g_strays(rng, pre, suf))
+    r_ = rng.random()
+    if r_ < 0.15 and len(utts) >= 2:
+        # (audit) an id that extends another id, present in one directory only, with --warn-missing: the pairing loop
+        # walks both listings in ID order ("a" < "a-1"), which is not the order of the file names ("a-1.pt" < "a.pt")
+        base = utts[0]
+        ext = utts[1] if utts[1].startswith(base) and utts[1] != base else base + rng.choice(["-1", "+x", "#2", ",c"])
+        if ext != utts[1]:
+            for d_ in (ref, hyp, case["timing"]):
+                if utts[1] in d_:
+                    d_[ext] = d_.pop(utts[1])
+            utts[1] = ext
+        for u in utts:
+            ref.setdefault(u, g_seq(rng, hi))
+            hyp.setdefault(u, list(ref[u]) if rng.random() < 0.5 else g_seq(rng, hi))
+            case["timing"].setdefault(u, False)
+        gone, side = rng.choice([base, ext, ext]), rng.choice([ref, hyp])
+        side.pop(gone)
+        if rng.random() < 0.3 and len(utts) > 2:
+            (hyp if side is ref else ref).pop(utts[2], None)
+        case["warn"] = rng.random() < 0.85
+        if case["suf"] == "":
+            case["suf"] = rng.choice([".pt", ".x", "_s.pt"])
+    elif r_ < 0.33 and len(utts) >= 3:
+        # (audit) --distances in total mode over several batches, the last one shorter: N not divisible by the batch size
+        for u in utts:
+            ref.setdefault(u, g_seq(rng, hi))
+            hyp.setdefault(u, g_seq(rng, hi))
+            case["timing"].setdefault(u, False)
+        n_ = len(utts)
+        bs = [b for b in range(2, n_) if n_ % b]
+        case.update(distances=True, per_utt=rng.random() < 0.15, warn=False, batch=rng.choice(bs) if bs else 2,
+                    batch2=rng.choice([1, n_, 100]))
     if mode == "int" and rng.random() < 0.5:
         # stored ids are arbitrary integers: negative ones (-1, -2, ...) and large ones are ordinary tokens
         sh = rng.choice([1, 2, 3, -1000])
@@ -872,7 +936,7 @@ def g_er(rng):
         case["rep"] = [[f(a), f(b)] for a, b in rep]
         case["ign"] = [f(x) for x in ign]
         case["shift"] = sh
-    return case
+    return g_layout(rng, case, 0.25)
 
 
 def _er_tensor(seq, timing):
@@ -1037,11 +1101,27 @@ def g_subset(rng):
         param = rng.choice([0, 1, 2, max(n - 1, 0), n, n + 2])
     else:
         param = rng.choice(RATIOS)
+    if rng.random() < 0.2 and n >= 2:
+        # (audit) an id that extends another id, and a first/last criterion that cuts exactly between the two: the
+        # listing is ordered by ID ("a" < "a-1"), not by file name ("a-1.pt" < "a.pt")
+        base = utts[0]
+        if not (utts[1].startswith(base) and utts[1] != base):
+            ext = base + rng.choice(["-1", "+x", "-b", "#2", ",c"])
+            lens[ext] = lens.pop(utts[1])
+            ali = None if ali is None else [ext if u == utts[1] else u for u in ali]
+            ref = None if ref is None else [ext if u == utts[1] else u for u in ref]
+            utts[1] = ext
+        ext = utts[1]
+        k = sorted(utts).index(ext)          # ids before the extension, the base among them
+        crit = rng.choice(["first_n", "last_n", "first_ratio", "last_ratio"])
+        param = {"first_n": k, "last_n": n - k, "first_ratio": (k + 0.5) / n, "last_ratio": (n - k + 0.5) / n}[crit]
+        if suf == "":
+            suf = rng.choice([".pt", ".x", "_s.pt", "ab"])
     case = dict(kind="subset", pre=pre, suf=suf, lens=lens, ali=ali, ref=ref, crit=crit, param=param,
-                only=rng.random() < 0.25, style=rng.choice(["link", "copy", "symlink"]), seed=rng.randint(0, 999),
+                only=rng.random() < 0.25, style=rng.choice(["link", "copy", "symlink"]), seed=rng.choice([0, rng.randint(0, 999)]),
                 subdirs=rng.choice([None, None, ["f", "a", "r"]]), strays=g_strays(rng, pre, suf))
     g_pool(rng, case)
-    return case
+    return g_layout(rng, case, 0.2)
 
 
 def _sub_dirs(case):
@@ -1078,6 +1158,8 @@ def x_subset(chk, sc, case):
             else:
                 t = torch.tensor([[rng.randint(0, 3), i, i + 1] for i in range(T)], dtype=torch.long).view(T, 3)
             fn = os.path.join(p, pre + u + suf)
+            if case.get("views"):
+                t = relayout(t, case["views"] + len(ids))
             torch.save(t, fn)
             ids[(sub, pre + u + suf)] = len(ids)
             blobs[(sub, pre + u + suf)] = (open(fn, "rb").read(), T)
@@ -1212,7 +1294,7 @@ def g_mom_ali(rng):
     case = dict(kind="mom_ali", pre=pre, suf=suf, files={pre + u + suf: {"v": g_ali_vec(rng)} for u in utts},
                 strays=g_strays(rng, pre, suf))
     g_mom_common(rng, case)
-    return case
+    return g_layout(rng, case)
 
 
 def g_mom_ref(rng):
@@ -1235,7 +1317,7 @@ def g_mom_ref(rng):
     case = dict(kind="mom_ref", pre=pre, suf=suf, files=files, strays=g_strays(rng, pre, suf),
                 err=rng.choice([None, None, "strict", "quiet"]))
     g_mom_common(rng, case)
-    return case
+    return g_layout(rng, case)
 
 
 def _mom_args(case, d, out):
@@ -1318,8 +1400,8 @@ def g_mvn(rng):
         gids = ["g1", "g2", "g3"]
         id2gid = [[u, rng.choice(gids)] for u in utts if rng.random() < 0.93] + ([["nobody", "g9"]] if rng.random() < 0.4 else [])
         rng.shuffle(id2gid)
-    return dict(kind="mvn", pre=pre, suf=suf, files=files, id2gid=id2gid, bessel=rng.random() < 0.4,
-                strays=g_strays(rng, pre, suf), workers=2 if rng.random() < 0.04 else 0)
+    return g_layout(rng, dict(kind="mvn", pre=pre, suf=suf, files=files, id2gid=id2gid, bessel=rng.random() < 0.4,
+                              strays=g_strays(rng, pre, suf), workers=2 if rng.random() < 0.04 else 0))
 
 
 def x_mvn(chk, sc, case):
@@ -1613,10 +1695,11 @@ def gen_cases(chk):
 
 
 def execute(chk, sc, case):
+    _LAY["on"], _LAY["k"] = bool(case.get("views")), int(case.get("views") or 0)
     try:
         return EXEC[case["kind"]](chk, sc, case)
     finally:
-        pass
+        _LAY["on"] = False
 
 
 def _cands(case):
